@@ -272,8 +272,8 @@ def run(tier, seed):
                "rescaling after fixed x fixed, storing a fixed value into an integer) are the recorded C01 finding "
                "R-SDIV (signed division emitted as unsigned): the 64-bit formula proved here is the unsigned one")
     # (i) conversions
-    for c in (S.constant_init, S.x_set):
-        api.verify(c, rep, replay=native_conv)
+    for c in S.conversion_contracts():
+        api.verify(c, rep, replay=native_conv, quiet=True)
     # (ii) arithmetic, Stage A
     jobs = programs(tier)
     rep.bound(f"Stage A: {len(jobs)} statements `dest = A op B` with at least one fixed-point operand (x register, "
@@ -381,14 +381,31 @@ def canary():
 def native_conv(name, conc, notes):
     from ebpfcat.ebpf import Constant
     bad = []
-    for k in (29000, 57000, 1, 115, 99999, 2 ** 40 + 29, -29000):
+    import struct
+    from ebpfcat.arraymap import ArrayGlobalVarDesc
+    for k in (29000, 57000, 1, 115, 99999, 2 ** 40 + 29, -29000, -1, -150000, -250000):
         d = k / 100000
         got = int(Constant(None, d).value)
         if got != k:
-            bad.append((d, got, k))
-    return {"inputs": {"decimals tried": "0.29 0.57 0.00001 0.00115 0.99999 ..."},
+            bad.append(("constant", d, got, k))
+
+        class Map:
+            name, base_register = "amap", 0
+        desc = ArrayGlobalVarDesc(Map, "x")
+        desc.name = "v"
+        inst = type("P", (), {})()
+        inst.ebpf = inst
+        inst.loaded = True
+        inst.amap = bytearray(16)
+        inst.__dict__["v"] = 8
+        desc.__set__(inst, d)
+        raw = struct.unpack_from("q", inst.amap, 8)[0]
+        if raw != k:
+            bad.append(("write of an x variable", d, raw, k))
+    return {"inputs": {"decimals tried": "0.29 0.57 0.00001 0.00115 0.99999 ... and negative ones"},
             "reproduced": bool(bad),
-            "detail": f"real Constant(ebpf, d): (decimal, scaled integer used, exact) mismatches: {bad[:4]}"}
+            "detail": f"real Constant(ebpf, d) / ArrayGlobalVarDesc.__set__: (what, decimal, scaled integer, exact) "
+                      f"mismatches: {bad[:4]}"}
 
 
 def replay_file(path):
